@@ -4,6 +4,12 @@ import json, sys
 ALL = ["C%02d" % i for i in range(1, 21)]
 
 CHECKS = {
+ "C01": dict(
+   category="exploration",
+   text="Generated component libraries (reference toolchain: wit-parser + wit-component; plus hand-shaped WAT packages) x operation histories on the public graph API x the four encode option combinations. Every Ok result must be accepted by wasmparser's validator (also with validate:false); every Err must be a documented cycle / import-conflict / merge-conflict error justified by the graph's own listing, never ValidationFailure and never a panic; the four option combinations must agree on the outcome class. Label floors require diamonds, several instantiations of one package, explicit imports, resources, cross-interface use, several API versions, shaped packages and both dependency modes to occur.",
+   note="Libraries contain only components the reference toolchain produced and validated. Generator rejections by the reference side are counted (generator_invalid) and never reported as defects. Known findings are keyed by validator-message class plus a coarse shape of the failing composition.",
+   technique="property-based testing: generated libraries + stateful API histories, independent reference validator as oracle (proptest)",
+   design="C01"),
  "C06": dict(
    category="exploration",
    text="Operation histories over the public CompositionGraph API on a tiny universe are run against a reference model written from the method docs: exhaustively for all sequences up to length 3 (quick) / 4 (thorough) over a 22-op alphabet from three start states, and randomly up to 60 ops with removal and re-creation. After every step the call's result class, every query (nodes, kinds, names, exports, imports(), arguments, alias sources, packages) and the guarded invariant hook are checked; every 4th step and at the end the graph must encode to a result class the model's state justifies and to bytes the reference validator accepts; clones are swapped in mid-history.",
